@@ -63,6 +63,7 @@ func dialWSConn(ctx context.Context, logger protocol.Logger, uri *url.URL, hands
 		p:             p,
 		conn:          conn,
 		writeCh:       make(chan []byte, o.WriteQueueSize),
+		packetCh:      make(chan *protocol.Packet, o.ReadQueueSize),
 		dopts:         *o,
 		closeCh:       make(chan struct{}),
 		closeCallback: newCloseCallback(),
@@ -163,8 +164,6 @@ func (conn *wsConn) write(data []byte) error {
 func (conn *wsConn) OnPacket(fn func(*protocol.Packet, error)) {
 	// OnPacket can only invoke once
 	conn.onPacketOnce.Do(func() {
-		conn.packetCh = make(chan *protocol.Packet, conn.dopts.ReadQueueSize)
-
 		go func() {
 			defer close(conn.packetCh)
 			defer verifhook.Point("conn.dispatcher:exit", verifhook.ID(conn))
